@@ -112,10 +112,13 @@ Definition sign_char (s : signo) : Z := match s with SMinus => 45 | SPlus => 43 
 Definition type_char (t : ftype) : Z :=
   match t with Tb => 98 | To => 111 | Td => 100 | Tx => 120 | TX => 88 | Tc => 99 | Ts => 115 end.
 Definition oz (o : option Z) : Z := match o with Some c => c | None => -1 end.
+(* `fill`/`align` of the returned dict: the '0' flag sets them only when no alignment was written *)
+Definition dict_zf (sp : spec) : bool := f_zero sp && match f_align sp with None => true | _ => false end.
+Definition dict_fill (sp : spec) : option Z := if dict_zf sp then Some 48 else f_fill sp.
+Definition dict_align (sp : spec) : option align := if dict_zf sp then Some AEq else f_align sp.
 Definition spec_dict (sp : spec) : list Z :=
-  let zf := f_zero sp && match f_align sp with None => true | _ => false end in
-  [ if zf then 48 else oz (f_fill sp);
-    if zf then 61 else oz (option_map align_char (f_align sp));
+  [ oz (dict_fill sp);
+    oz (option_map align_char (dict_align sp));
     oz (option_map sign_char (f_sign sp));
     if f_alt sp then 1 else 0;
     f_width sp;
@@ -162,6 +165,27 @@ Definition group_digits (G : option Z) (digs : list Z) (mw : Z) : list Z :=
   | None => pad (Z.max (Z.max (zlen digs) mw) 1 - zlen digs) 48 ++ digs
   | Some g => group_loop (length digs + Z.to_nat mw + 1) g (rev digs) mw true []
   end.
+
+(* SPEC of grouping: separators inserted from the right, one after every g characters counted from the least
+   significant end (never in front of the leftmost character).  rl = characters least significant first,
+   cnt = characters already in the current group. *)
+Fixpoint sep_right_go (g cnt : Z) (rl acc : list Z) : list Z :=
+  match rl with
+  | [] => acc
+  | c :: r => if cnt =? g then sep_right_go g 1 r (c :: 95 :: acc) else sep_right_go g (cnt + 1) r (c :: acc)
+  end.
+Definition sep_right (g : Z) (l : list Z) : list Z := sep_right_go g 0 (rev l) [].
+
+(* length of n >= 1 characters once grouped by g *)
+Definition grouped_len (g n : Z) : Z := n + (n - 1) / g.
+(* "pad with zeros, then group, so that the width mw is met": the number of zeros put in front of n digits.
+   A grouped text never has a length that is a multiple of g+1 (it would start with a separator), so a width that is
+   a multiple of g+1 is met with one more character. *)
+Definition zero_count (g n mw : Z) : Z :=
+  let target := if mw mod (g + 1) =? 0 then mw + 1 else mw in
+  if target <=? grouped_len g n then 0 else (target - target / (g + 1)) - n.
+Definition pad_then_group (g : Z) (digs : list Z) (mw : Z) : list Z :=
+  sep_right g (pad (zero_count g (zlen digs) mw) 48 ++ digs).
 
 Definition eff_fill (sp : spec) : Z :=
   match f_fill sp with Some c => c | None => if f_zero sp then 48 else 32 end.
@@ -551,3 +575,136 @@ Definition leaf_renders (sigs : list shape) (env : list Z) (pl : list (cond * bo
   end.
 Definition edge_renders (sigs : list shape) (env : list Z) (p : prog) : bool :=
   forallb (leaf_renders sigs env) (leaves p []).
+
+(* ------------------------------------------------------------------ *)
+(* Part 5: the FORMAT parameter of the RTLIL $print cell (back/rtlil.py ModuleEmitter.emit_print)          *)
+
+Inductive rbase := Rb | Ro | Rd | Rh | RH | Rstr.     (* b o d h H, and c (string) *)
+
+(* {<size>:<justify><padding><width?><base><sign?><#?><_?><s|u>} *)
+Record ritem := RItem {
+  r_size : Z; r_just : align; r_pad : Z; r_width : Z; r_base : rbase;
+  r_sign : option signo; r_show : bool; r_group : bool; r_signed : bool }.
+
+Inductive rchunk :=
+| RText (t : list Z)       (* literal text; braces are doubled in the FORMAT string *)
+| RFill (c n : Z)          (* fill * n appended to the FORMAT string as is (around {N:U}) *)
+| RUni (size : Z)          (* {N:U} *)
+| RInt (it : ritem).
+
+Definition rbase_of (t : option ftype) : rbase :=
+  match t with
+  | Some Tb => Rb | Some To => Ro | Some Tx => Rh | Some TX => RH | Some Ts => Rstr | _ => Rd
+  end.
+Definition is_left (a : align) : bool := match a with ALeft => true | _ => false end.
+Definition is_rd (b : rbase) : bool := match b with Rd => true | _ => false end.
+
+(* one FormatValue chunk; None = NotImplementedError (non-ASCII fill) *)
+Definition rtl_emit_field (sp : spec) (size : Z) (signed : bool) : option (list rchunk) :=
+  let width := f_width sp in
+  let is_chr := is_cs (f_type sp) in
+  let al := match dict_align sp with Some a => a | None => if is_chr then ALeft else ARight end in
+  let fill := match dict_fill sp with Some c => c | None => 32 end in
+  if 128 <=? fill then None
+  else match f_type sp with
+       | Some Tc =>
+           Some ((if negb (is_left al) && negb (width =? 0) then [RFill fill (width - 1)] else [])
+                 ++ [RUni size]
+                 ++ (if is_left al && negb (width =? 0) then [RFill fill (width - 1)] else []))
+       | t =>
+           let b := rbase_of t in
+           Some [RInt (RItem size al fill width b (f_sign sp) (f_alt sp && negb (is_rd b)) (f_group sp) signed)]
+       end.
+
+(* the text of the FORMAT parameter *)
+Definition dec_text (n : Z) : list Z := map (digit_char false) (digits 10 n).
+Definition base_char (b : rbase) : Z :=
+  match b with Rb => 98 | Ro => 111 | Rd => 100 | Rh => 104 | RH => 72 | Rstr => 99 end.
+Definition escape_braces (t : list Z) : list Z :=
+  flat_map (fun c => if (c =? 123) || (c =? 125) then [c; c] else [c]) t.
+Definition rchunk_text (c : rchunk) : list Z :=
+  match c with
+  | RText t => escape_braces t
+  | RFill c n => pad n c
+  | RUni size => [123] ++ dec_text size ++ [58; 85; 125]
+  | RInt it =>
+      [123] ++ dec_text (r_size it) ++ [58; align_char (r_just it); r_pad it]
+      ++ (if r_width it =? 0 then [] else dec_text (r_width it))
+      ++ [base_char (r_base it)]
+      ++ match r_sign it with Some sg => [sign_char sg] | None => [] end
+      ++ (if r_show it then [35] else [])
+      ++ (if r_group it then [95] else [])
+      ++ match r_base it with Rstr => [] | _ => [if r_signed it then 115 else 117] end
+      ++ [125]
+  end.
+
+(* a whole Format -> chunks (the value of each field is a signal expression of known shape) *)
+Fixpoint rtl_format (sigs : list shape) (f : format) : option (list rchunk) :=
+  match f with
+  | [] => Some []
+  | CLit t :: r => option_map (cons (RText t)) (rtl_format sigs r)
+  | CField e s :: r =>
+      match field_spec sigs e s with
+      | Some sp =>
+          match rtl_emit_field sp (width (vshape sigs e)) (sgn (vshape sigs e)), rtl_format sigs r with
+          | Some cs, Some cs' => Some (cs ++ cs')
+          | _, _ => None
+          end
+      | None => None
+      end
+  end.
+
+(* DENOTATION of the FORMAT items, as the fields read (Yosys manual, $print): justify / padding character / width
+   are literal; numeric justification puts the padding between sign+prefix and digits; with '_' the digits are
+   grouped from the right by 4 (b o h H) or 3 (d), and zero padding under numeric justification is padded then
+   grouped.  This reading is NOT validated against Yosys (none available here); only the emitted text is validated. *)
+Definition layout (al : align) (fill width : Z) (s p body r : list Z) : list Z :=
+  let npad := Z.max 0 (width - (zlen s + zlen p + zlen r) - zlen body) in
+  match al with
+  | ALeft  => s ++ p ++ body ++ r ++ pad npad fill
+  | ARight => pad npad fill ++ s ++ p ++ body ++ r
+  | AEq    => s ++ p ++ pad npad fill ++ body ++ r
+  end.
+
+Definition rbase_radix (b : rbase) : Z := match b with Rb => 2 | Ro => 8 | Rd => 10 | _ => 16 end.
+Definition rbase_group (b : rbase) : Z := match b with Rd => 3 | _ => 4 end.
+Definition rbase_prefix (b : rbase) : list Z :=
+  match b with Rb => [48; 98] | Ro => [48; 111] | Rh => [48; 120] | RH => [48; 88] | _ => [48; 100] end.
+
+(* v = the value of the argument read in the item's signedness *)
+Definition ritem_render (it : ritem) (v : Z) : list Z :=
+  match r_base it with
+  | Rstr => layout (r_just it) (r_pad it) (r_width it) [] [] [] (value_bytes v)   (* bytes, NULs skipped *)
+  | b =>
+      let s := if v <? 0 then [45]
+               else match r_sign it with Some SPlus => [43] | Some SSpace => [32] | _ => [] end in
+      let p := if r_show it then rbase_prefix b else [] in
+      let d := map (digit_char (match b with RH => true | _ => false end)) (digits (rbase_radix b) (Z.abs v)) in
+      let body :=
+        if r_group it then
+          if match r_just it with AEq => true | _ => false end && (r_pad it =? 48)
+          then pad_then_group (rbase_group b) d (r_width it - zlen s - zlen p)
+          else sep_right (rbase_group b) d
+        else d in
+      layout (r_just it) (r_pad it) (r_width it) s p body []
+  end.
+
+Definition is_brace (c : Z) : bool := (c =? 123) || (c =? 125).
+
+Definition rchunk_render (c : rchunk) (v : Z) : option (list Z) :=
+  match c with
+  | RText t => Some t
+  | RFill c n => if is_brace c then (if n mod 2 =? 0 then Some (pad (n / 2) c) else None)   (* "{{" reads as one brace *)
+                 else Some (pad n c)
+  | RUni _ => if (v <? 0) || (1114111 <? v) then None else Some [v]
+  | RInt it => Some (ritem_render it v)
+  end.
+
+Fixpoint rchunks_render (cs : list rchunk) (v : Z) : option (list Z) :=
+  match cs with
+  | [] => Some []
+  | c :: r => match rchunk_render c v, rchunks_render r v with
+              | Some a, Some b => Some (a ++ b)
+              | _, _ => None
+              end
+  end.
